@@ -88,6 +88,8 @@ type sim struct {
 	exact    bool // byte-exact class: no AEAD oracle inputs in the Coq case
 	nmsg     int
 	big      []byte
+	loop     bool      // the endpoint's REAL receive loop (Serve / listen) is running; datagrams go through its socket
+	lw       *loopWire // the socket of that loop
 }
 
 // feedStats counts, per kind of datagram fed to handleSessionMessage, how often it was accepted / rejected
@@ -157,8 +159,10 @@ func (s *sim) ob(code int, n int, data [][]byte, addrs []uint64, st []transport.
 
 // newSim builds the world: the focus endpoint, one honest peer per focus session, and foreign
 // sessions (same session id with other keys; another session id) whose datagrams the adversary can inject.
-func newSim(r *hv.Rand, prop, class string, kind int) *sim {
-	s := &sim{r: r, prop: prop, class: class, fw: &wire{}, pristine: map[string]*dg{}}
+func newSim(r *hv.Rand, prop, class string, kind int) *sim { return newSimL(r, prop, class, kind, false) }
+
+func newSimL(r *hv.Rand, prop, class string, kind int, loop bool) *sim {
+	s := &sim{r: r, prop: prop, class: class, fw: &wire{}, pristine: map[string]*dg{}, loop: loop}
 	s.kind = r.Intn(2)
 	if kind >= 0 {
 		s.kind = kind
@@ -167,13 +171,22 @@ func newSim(r *hv.Rand, prop, class string, kind int) *sim {
 	nsess := 1
 	if s.kind == 0 {
 		nsess = 1 + r.Intn(2)
+		if loop {
+			nsess = 1 + r.Intn(3)
+		}
 	}
 	var handles []*transport.Handle
 	for i := 0; i < nsess; i++ {
 		var c sessSpec
 		for {
 			copy(c.sid[:], r.Bytes(4))
-			if i == 0 || c.sid != s.fs[0].spec.sid {
+			dupl := false
+			for _, g := range s.fs {
+				if g.spec.sid == c.sid {
+					dupl = true
+				}
+			}
+			if !dupl {
 				break
 			}
 		}
@@ -228,9 +241,12 @@ func newSim(r *hv.Rand, prop, class string, kind int) *sim {
 		s.fs = append(s.fs, f)
 		handles = append(handles, f.h)
 	}
-	if s.kind == 0 {
+	switch {
+	case loop:
+		s.startLoop(handles)
+	case s.kind == 0:
 		s.srv = transport.VerifNewServer(s.fw, handles...)
-	} else {
+	default:
 		s.cli = transport.VerifNewClient(s.fw, handles[0])
 	}
 	// foreign datagrams: same session id as session 0 but other keys (both directions), and another session id
@@ -309,8 +325,20 @@ func (s *sim) peerJump(i int, by uint64) {
 // ---------------------------------------------------------------- operations on the focus (compared with the model)
 
 // feed hands one datagram to the focus endpoint's handleSessionMessage.
-func (s *sim) feed(pkt []byte, src uint64, label string) {
+func (s *sim) feed(pkt []byte, src uint64, label string) { s.feedX(pkt, 0, src, label) }
+
+// feedX: the datagram is pkt followed by pad bytes 0xAA (pad > 0 only when the real receive loop runs: the
+// socket truncates it to the loop's buffer).
+func (s *sim) feedX(pkt []byte, pad int, src uint64, label string) {
 	a := mkAddr(src, s.r.Bool())
+	body := pkt
+	if pad > 0 {
+		pkt = append(append([]byte(nil), pkt...), bytes.Repeat([]byte{0xAA}, pad)...)
+	}
+	seen := pkt // what the handler gets to see
+	if s.loop && len(seen) > s.lw.lastBuf && s.lw.lastBuf > 0 {
+		seen = seen[:s.lw.lastBuf]
+	}
 	ki := 0
 	if s.kind == 0 && len(pkt) >= 8 {
 		for i, f := range s.fs {
@@ -321,16 +349,22 @@ func (s *sim) feed(pkt []byte, src uint64, label string) {
 	}
 	var or []byte
 	ok := false
-	if len(pkt) >= 16 && s.fs[ki].spec.rk != nil {
-		or, ok = openDirect(*s.fs[ki].spec.rk, pkt[:16], pkt[16:])
+	if len(seen) >= 16 && s.fs[ki].spec.rk != nil {
+		or, ok = openDirect(*s.fs[ki].spec.rk, seen[:16], seen[16:])
 	}
 	before := s.states()
 	var err error
 	in := append([]byte(nil), pkt...)
+	buflen := 0
 	panicked, pmsg := hv.Catch(func() {
-		if s.kind == 0 {
+		switch {
+		case s.loop:
+			// through the socket of the running Serve / listen goroutine; returns when the loop asks for the next datagram
+			buflen = s.lw.push(a, in)
+			s.fw.take() // replies of the handshake handlers (ServerHello to a well-formed ClientHello) are not compared
+		case s.kind == 0:
 			err = s.srv.VerifHandleSessionMessage(a, in)
-		} else {
+		default:
 			err = s.cli.VerifHandleSessionMessage(a, in)
 		}
 	})
@@ -342,12 +376,16 @@ func (s *sim) feed(pkt []byte, src uint64, label string) {
 	if panicked {
 		code = 2
 	}
-	if s.exact {
+	switch {
+	case s.loop:
+		s.ops = append(s.ops, hv.App("LD", hv.N(src), hx(body), hv.Ni(pad), hv.Ni(ki), optHex(or, ok), "[]"))
+		noteBuf(buflen)
+	case s.exact:
 		s.ops = append(s.ops, hv.App("I", hv.N(src), hx(pkt), hv.Ni(ki), "None"))
-	} else {
+	default:
 		s.ops = append(s.ops, hv.App("I", hv.N(src), hx(pkt), hv.Ni(ki), optHex(or, ok)))
 	}
-	s.ob(code, 0, nil, nil, after)
+	s.ob(code, buflen, nil, nil, after)
 	s.desc = append(s.desc, fmt.Sprintf("in(from a%d, %s, %d bytes)->%d", src, label, len(pkt), code))
 	st := feedStats[labelKind(label)]
 	st[code]++
@@ -463,13 +501,13 @@ func (s *sim) write(kind, i int, mt byte, m []byte) {
 	}
 	switch kind {
 	case kWM:
-		s.ops = append(s.ops, hv.App("WM", hv.Ni(i), hx(m), hdrC, ctC))
+		s.addOp(hv.App("WM", hv.Ni(i), hx(m), hdrC, ctC))
 		s.desc = append(s.desc, fmt.Sprintf("s%d.WriteMsg(%d bytes)->%d", i, len(m), code))
 	case kWR:
-		s.ops = append(s.ops, hv.App("WR", hv.Ni(i), hx(m), hdrC, ctC))
+		s.addOp(hv.App("WR", hv.Ni(i), hx(m), hdrC, ctC))
 		s.desc = append(s.desc, fmt.Sprintf("s%d.Write(%d bytes)->(%d,%d)", i, len(m), n, code))
 	case kSD:
-		s.ops = append(s.ops, hv.App("SD", hv.Ni(i), hv.Ni(int(mt)), hx(m), hdrC, ctC))
+		s.addOp(hv.App("SD", hv.Ni(i), hv.Ni(int(mt)), hx(m), hdrC, ctC))
 		s.desc = append(s.desc, fmt.Sprintf("s%d.send(%#x,%x)->%d", i, mt, m, code))
 	}
 	s.ob(code, n, pk, ds, after)
@@ -515,7 +553,7 @@ func (s *sim) closeSess(i int) {
 	f := s.fs[i]
 	f.h.Close()
 	f.closed = true
-	s.ops = append(s.ops, hv.App("CL", hv.Ni(i)))
+	s.addOp(hv.App("CL", hv.Ni(i)))
 	s.ob(0, 0, nil, nil, s.states())
 	s.desc = append(s.desc, fmt.Sprintf("s%d.Close()", i))
 }
@@ -549,9 +587,9 @@ func (s *sim) read(msg bool, i int, n int) int {
 	name := "Read"
 	if msg {
 		name = "ReadMsg"
-		s.ops = append(s.ops, hv.App("RM", hv.Ni(i), hv.Ni(n)))
+		s.addOp(hv.App("RM", hv.Ni(i), hv.Ni(n)))
 	} else {
-		s.ops = append(s.ops, hv.App("RD", hv.Ni(i), hv.Ni(n)))
+		s.addOp(hv.App("RD", hv.Ni(i), hv.Ni(n)))
 	}
 	s.ob(code, 0, data, nil, s.states())
 	s.desc = append(s.desc, fmt.Sprintf("s%d.%s(buf %d)->%d", i, name, n, code))
@@ -612,6 +650,12 @@ func (s *sim) emit(idx int) {
 		fn = "c03x_ok"
 		if s.prop == "C15" {
 			fn = "c15x_ok"
+		}
+	}
+	if s.loop {
+		fn = "c03l_ok"
+		if s.prop == "C15" {
+			fn = "c15l_ok"
 		}
 	}
 	specs := make([]string, len(s.fs))
